@@ -197,6 +197,35 @@ func ExchangeCases(tier string, seed uint64) []ExCase {
 		e.O.Exs = []Ex{ex1, ex2}
 	})
 
+	// dial redirect (--connect-to): requested for one host, dialled to another; every label series must return to zero
+	add("plain-ok-dial-redirected", "plain-ok", func(e *Env) {
+		o := e.Peer(OriginReplying(ReplyCL(200, "OK", "hello world"), "keep"))
+		e.Start(func(op *Options) { op.Redirect = map[string]string{"requested.invalid:80": o.Addr} })
+		c := e.Client()
+		ex := Ex{Val: Val{}, Method: "GET", UpStatus: 200}
+		co := e.Do(c, getReq("http://requested.invalid/x"), false, &ex)
+		e.End(c, co)
+		e.O.Exs = []Ex{ex}
+	})
+	add("connect-ok-dial-redirected", "connect-ok", func(e *Env) {
+		o := e.Peer(func(c net.Conn, n int) { Echo(c) })
+		e.Start(func(op *Options) { op.Redirect = map[string]string{"requested.invalid:443": o.Addr} })
+		c := e.Client()
+		ex := Ex{Val: Val{Connect: true}, Method: "CONNECT"}
+		co := e.Do(c, connectReq("requested.invalid:443"), true, &ex)
+		if co.P.Verdict == VComplete && co.P.Status == 200 {
+			c.Write([]byte("ping"))
+			buf := make([]byte, 4)
+			c.SetReadDeadline(time.Now().Add(2 * time.Second))
+			if _, err := ioReadFull(c, buf); err != nil || string(buf) != "ping" {
+				e.Failf("tunnel did not echo: %v %q", err, buf)
+			}
+		}
+		e.Rig.Mark()
+		c.Close()
+		e.O.Exs = []Ex{ex}
+	})
+
 	// request modifier refuses
 	for _, f := range []string{"auth", "localhost", "deny", "timeframe", "canceled", "plain", "operr", "operr-timeout"} {
 		f := f
